@@ -3,8 +3,10 @@ import Failsafe.Conc.BreakerConc
 # Hedge executor: coordinator loop and attempt goroutines (hedgepolicy/hedgeexecutor.go)
 
 `n = maxHedges + 1` attempts at most. The coordinator launches attempt `launched`, then waits for the hedge delay timer or a
-result (only a result once all attempts are launched). An attempt that finishes increments `resultCount`; it sends its result
-iff `(isFinal ∨ cancellable) ∧ CAS(resultSent)`; the channel has capacity `Facts.hedgeChanCap` (the theorems below do not
+result (only a result once all attempts are launched). An attempt that finishes increments `resultCount` (action `count`: this
+is where `isFinal` is decided) and, in a **separate** step (`trySend`), sends its result iff `(isFinal ∨ cancellable) ∧
+CAS(resultSent)` — two atomics, so another attempt may get in between (found by the TRACE tie: a recorded run in which the final,
+non-cancellable result won the CAS against a cancellable one that had been counted earlier); the channel has capacity `Facts.hedgeChanCap` (the theorems below do not
 depend on it: at most one send ever happens and the coordinator receives once). On receiving, the coordinator cancels every
 other launched attempt and returns.
 -/
@@ -25,13 +27,15 @@ structure St where
   returned : Bool := false
   timers : Nat := 0                   -- hedge-delay timers that have fired
   cancelled : List Nat := []          -- attempts cancelled by the coordinator on return
+  pending : List (Nat × Bool × Bool) := []   -- counted, CAS not tried yet: (attempt, cancellable, isFinal)
 deriving Repr, DecidableEq
 
 inductive Act
   | launch
   | timer
   | recv
-  | finish (k : Nat) (cancellable : Bool)
+  | count (k : Nat) (cancellable : Bool)              -- the attempt's function has returned: `resultCount.Add(1)`, `isFinal` decided
+  | trySend (k : Nat) (cancellable isFinal : Bool)   -- `(isFinal || cancellable) && resultSent.CompareAndSwap(false, true)` then send
 
 def step (s : St) : Act → Option St
   | .launch =>
@@ -48,13 +52,16 @@ def step (s : St) : Act → Option St
                                 cancelled := (List.range s.launched).filter (· ≠ x.1) }
       | none => none
     else none
-  | .finish k c =>
+  | .count k c =>
     if s.ths[k]? = some .running then
       let cnt := s.finishedCount + 1
-      let isFinal := decide (cnt = s.n)
-      if (isFinal || c) && !s.sent then
-        some { s with ths := s.ths.set k .finished, finishedCount := cnt, sent := true, sends := s.sends + 1, chan := some (k, c) }
-      else some { s with ths := s.ths.set k .finished, finishedCount := cnt }
+      some { s with ths := s.ths.set k .finished, finishedCount := cnt, pending := (k, c, decide (cnt = s.n)) :: s.pending }
+    else none
+  | .trySend k c f =>
+    if (k, c, f) ∈ s.pending then
+      if (f || c) && !s.sent then
+        some { s with pending := s.pending.erase (k, c, f), sent := true, sends := s.sends + 1, chan := some (k, c) }
+      else some { s with pending := s.pending.erase (k, c, f) }
     else none
 
 def nonIdle (l : List A) : Nat := l.count .running + l.count .finished
@@ -72,12 +79,13 @@ structure Inv (s : St) : Prop where
   retAcc : s.returned = true → s.accepted.isSome
   notBefore : s.launched ≤ s.timers + (if s.waiting = true ∨ s.returned = true ∨ s.launched = 0 then 1 else 0)
   waitingLaunched : s.waiting = true → 0 < s.launched
+  pend : ∀ x ∈ s.pending, s.ths[x.1]? = some .finished ∧ (x.2.2 = true → s.finishedCount = s.n)
 
 def init (n : Nat) : St := { n := n, ths := List.replicate n .idle }
 
 theorem init_inv (n : Nat) : Inv (init n) := by
   refine ⟨by simp [init], by simp [init, nonIdle, List.count_replicate], ?_, by simp [init], by simp [init, List.count_replicate],
-    by simp [init], by simp [init], by simp [init], by simp [init], by simp [init], by simp [init], by simp [init]⟩
+    by simp [init], by simp [init], by simp [init], by simp [init], by simp [init], by simp [init], by simp [init], by simp [init]⟩
   intro k _ hk
   have hk' : k < n := hk
   simp [init, List.getElem?_replicate, hk']
@@ -111,7 +119,7 @@ theorem inv_step (s s' : St) (a : Act) (h : Inv s) (hs : step s a = some s') : I
       have hnb := h.notBefore
       have hnw' : s.waiting = false := by simpa using hnw
       have hnr' : s.returned = false := by simpa using hnr
-      refine ⟨by simp [h.len], ?_, ?_, by simp only; omega, by simp only; rw [c2]; exact h.fin, h.sendsEq, h.chanSent, h.accSent, ?_, ?_, ?_, by simp⟩
+      refine ⟨by simp [h.len], ?_, ?_, by simp only; omega, by simp only; rw [c2]; exact h.fin, h.sendsEq, h.chanSent, h.accSent, ?_, ?_, ?_, by simp, ?_⟩
       · simp only [nonIdle]; have := h.launchedEq; simp only [nonIdle] at this; omega
       · intro k hk hkn
         simp only at hk hkn ⊢
@@ -129,6 +137,10 @@ theorem inv_step (s s' : St) (a : Act) (h : Inv s) (hs : step s a = some s') : I
         by_cases h0 : s.launched = 0
         · simp [h0]
         · simp [h0] at hnb; omega
+      · intro x hx
+        have hp := h.pend x hx
+        have hne : x.1 ≠ s.launched := by intro he; rw [he] at hp; rw [hidle] at hp; cases hp.1
+        exact ⟨by simp only; rw [get_set_ne hne]; exact hp.1, hp.2⟩
     · cases hs
   case timer =>
     split at hs
@@ -137,7 +149,7 @@ theorem inv_step (s s' : St) (a : Act) (h : Inv s) (hs : step s a = some s') : I
       have hnb := h.notBefore
       simp only [hc.1, true_or, if_true] at hnb
       exact ⟨h.len, h.launchedEq, h.prefixStarted, h.launchedLe, h.fin, h.sendsEq, h.chanSent, h.accSent, h.produced, h.retAcc,
-        by simp only; split <;> omega, by simp⟩
+        by simp only; split <;> omega, by simp, h.pend⟩
     · cases hs
   case recv =>
     split at hs
@@ -148,83 +160,90 @@ theorem inv_step (s s' : St) (a : Act) (h : Inv s) (hs : step s a = some s') : I
         have hcs := h.chanSent (by simp [hx])
         have hnb := h.notBefore
         simp only [hw, true_or, if_true] at hnb
-        refine ⟨h.len, h.launchedEq, h.prefixStarted, h.launchedLe, h.fin, h.sendsEq, by simp, by simp [hcs.1], ?_, by simp, by simp only; simp; omega, by simp⟩
+        refine ⟨h.len, h.launchedEq, h.prefixStarted, h.launchedLe, h.fin, h.sendsEq, by simp, by simp [hcs.1], ?_, by simp, by simp only; simp; omega, by simp, h.pend⟩
         intro y hy
         simp only [reduceCtorEq, Option.some.injEq, false_or] at hy
         subst hy
         exact h.produced x (Or.inl hx)
       · cases hs
     · cases hs
-  case finish k c =>
+  case count k c =>
     split at hs
     · rename_i hrun
+      simp only [Option.some.injEq] at hs; subst hs
       have c1 := countA_set (l := s.ths) (i := k) (b := A.finished) (x := A.running) hrun
       have c2 := countA_set (l := s.ths) (i := k) (b := A.finished) (x := A.finished) hrun
       simp at c1 c2
-      have hklt : k < s.launched := by
-        by_cases hk : k < s.launched
-        · exact hk
-        · exfalso
-          have hkn : k < s.n := by
-            have : k < s.ths.length := by
-              cases hl : s.ths[k]? with
-              | none => rw [hl] at hrun; cases hrun
-              | some x => exact (List.getElem?_eq_some_iff.1 hl).1
-            rw [h.len] at this; exact this
-          have := h.prefixStarted k (by omega) hkn
-          rw [hrun] at this; cases this
       have hrunpos : 0 < s.ths.count A.running := by
         apply List.count_pos_iff.2
         exact List.mem_of_getElem? hrun
       have hle : s.finishedCount + 1 ≤ s.n := by
         have := h.launchedEq; simp only [nonIdle] at this
         have := h.fin; have := h.launchedLe; omega
-      have keep : ∀ x, (s.chan = some x ∨ s.accepted = some x) → (s.ths.set k A.finished)[x.1]? = some A.finished ∧ (x.2 = false → s.finishedCount + 1 = s.n) := by
-        intro x hx
+      have hklen : k < s.ths.length := by
+        cases hl : s.ths[k]? with
+        | none => rw [hl] at hrun; cases hrun
+        | some x => exact (List.getElem?_eq_some_iff.1 hl).1
+      refine ⟨by simp [h.len], ?_, ?_, h.launchedLe, by simp only; rw [c2]; have := h.fin; omega, h.sendsEq, h.chanSent, h.accSent, ?_, h.retAcc, h.notBefore, h.waitingLaunched, ?_⟩
+      · simp only [nonIdle]; have := h.launchedEq; simp only [nonIdle] at this; omega
+      · intro k' hk' hkn
+        simp only at hk' hkn ⊢
+        have hkne : k' ≠ k := by
+          intro he; subst he
+          have := h.prefixStarted k' hk' hkn
+          rw [hrun] at this; cases this
+        rw [get_set_ne hkne]
+        exact h.prefixStarted k' hk' hkn
+      · intro x hx
         have hp := h.produced x hx
         have hne : x.1 ≠ k := by intro he; rw [he] at hp; rw [hrun] at hp; cases hp.1
-        refine ⟨by rw [get_set_ne hne]; exact hp.1, ?_⟩
+        refine ⟨by simp only; rw [get_set_ne hne]; exact hp.1, ?_⟩
         intro hx2
         have := hp.2 hx2
-        omega
+        simp only; omega
+      · intro x hx
+        simp only [List.mem_cons] at hx
+        rcases hx with hx | hx
+        · subst hx
+          refine ⟨by simp only; simp [List.getElem?_set, hklen], ?_⟩
+          intro hf
+          simpa using hf
+        · have hp := h.pend x hx
+          have hne : x.1 ≠ k := by intro he; rw [he] at hp; rw [hrun] at hp; cases hp.1
+          refine ⟨by simp only; rw [get_set_ne hne]; exact hp.1, ?_⟩
+          intro hf
+          have := hp.2 hf
+          simp only; omega
+    · cases hs
+  case trySend k c f =>
+    split at hs
+    · rename_i hmem
+      have hp := h.pend (k, c, f) hmem
+      have hsub : ∀ x ∈ s.pending.erase (k, c, f), s.ths[x.1]? = some .finished ∧ (x.2.2 = true → s.finishedCount = s.n) :=
+        fun x hx => h.pend x (List.mem_of_mem_erase hx)
       split at hs
       · rename_i hcond
         simp only [Option.some.injEq] at hs; subst hs
-        simp only [Bool.and_eq_true, Bool.or_eq_true, decide_eq_true_eq, Bool.not_eq_true'] at hcond
+        simp only [Bool.and_eq_true, Bool.or_eq_true, Bool.not_eq_true'] at hcond
         have hns := hcond.2
         have hacc : s.accepted = none := by
           cases ha : s.accepted with
           | none => rfl
           | some y => have := (h.accSent (by simp [ha])).1; rw [hns] at this; cases this
-        have hch : s.chan = none := by
-          cases hc : s.chan with
-          | none => rfl
-          | some y => have := (h.chanSent (by simp [hc])).1; rw [hns] at this; cases this
-        refine ⟨by simp [h.len], ?_, ?_, h.launchedLe, by simp only; rw [c2]; have := h.fin; omega, ?_, by simp [hacc], by simp [hacc], ?_, ?_, h.notBefore, h.waitingLaunched⟩
-        · simp only [nonIdle]; have := h.launchedEq; simp only [nonIdle] at this; omega
-        · intro k' hk' hkn
-          simp only at hk' hkn ⊢
-          rw [get_set_ne (by omega)]
-          exact h.prefixStarted k' hk' hkn
+        refine ⟨h.len, h.launchedEq, h.prefixStarted, h.launchedLe, h.fin, ?_, by simp [hacc], by simp [hacc], ?_, ?_, h.notBefore, h.waitingLaunched, hsub⟩
         · have := h.sendsEq; simp only [hns] at this; simp [this]
         · intro x hx
           simp only [hacc, Option.some.injEq, reduceCtorEq, or_false] at hx
           subst hx
-          refine ⟨by simp only; simp [List.getElem?_set]; exact (List.getElem?_eq_some_iff.1 hrun).1, ?_⟩
+          refine ⟨hp.1, ?_⟩
           intro hcf
           simp only at hcf
           rcases hcond.1 with h1 | h1
-          · exact h1
+          · exact hp.2 h1
           · rw [hcf] at h1; cases h1
         · intro hr; have := h.retAcc hr; rw [hacc] at this; simp at this
       · simp only [Option.some.injEq] at hs; subst hs
-        refine ⟨by simp [h.len], ?_, ?_, h.launchedLe, by simp only; rw [c2]; have := h.fin; omega, h.sendsEq, h.chanSent, h.accSent, ?_, h.retAcc, h.notBefore, h.waitingLaunched⟩
-        · simp only [nonIdle]; have := h.launchedEq; simp only [nonIdle] at this; omega
-        · intro k' hk' hkn
-          simp only at hk' hkn ⊢
-          rw [get_set_ne (by omega)]
-          exact h.prefixStarted k' hk' hkn
-        · intro x hx; exact keep x hx
+        exact ⟨h.len, h.launchedEq, h.prefixStarted, h.launchedLe, h.fin, h.sendsEq, h.chanSent, h.accSent, h.produced, h.retAcc, h.notBefore, h.waitingLaunched, hsub⟩
     · cases hs
 
 theorem inv_run (s : St) (as : List Act) (h : Inv s) :
